@@ -8,7 +8,7 @@ from lemmas import wires
 
 
 def deductive(tier="quick", seed=0):
-    tasks = [t for t in D.tasks(tier) if t.label.startswith(("insert_at", "remove_op"))]
+    tasks = [t for t in D.tasks(tier) if t.label.startswith(("insert_at", "remove_op", "replace_op"))]
     d = run_tasks(tasks)
     d.obligations.extend(wires.obligations())
     d.obligations.extend(MS.c04_obligations())
